@@ -134,6 +134,11 @@ def case(s, idx, kind):
     ro1, cur1 = apply_all(s, ro1, cur, edits, ctx)
     after_b = str(m)
     s.note_sig((kind, 'b', tuple(sorted({k for k, _ in edits})), after_b == t0))
+    if s.hist['c13_samples'] < 2 and idx % 17 == 0:
+        s.hist['c13_samples'] += 1
+        s.samples.insert(0, {'carrying_kind': kind, 'follow_up_edits': [k for k, _ in edits],
+                          'shared_elements_after_merge': len(alias or []),
+                          'message_text_unchanged_after_edits': after_b == t0, 'message': msg_txt[:400]})
     if after_b != t0:
         s.custom_violation('message-changed-by-later-merges-into-the-running-order',
                            {'kind': kind, 'edits': [k for k, _ in edits]}, wit, msg_kind=kind, status='b')
